@@ -2,6 +2,8 @@ package props
 
 import (
 	"fmt"
+
+	"verif/internal/mon"
 )
 
 // bitAt reads bit i of a bitmap, LSB-first inside each word (the library's convention).
@@ -121,4 +123,32 @@ func (r *retained) keep(vs ...[]int32) int {
 		r.hash = append(r.hash, hashI32s(v))
 	}
 	return bad
+}
+
+// retainCheck remembers results returned by earlier library calls of this worker (as closures that
+// re-hash them) and re-evaluates all of them whenever new ones are added: a result handed to the
+// caller must not change when the library is called again (no aliasing of reused internal buffers).
+// It returns false, after recording the violation, if an earlier result changed.
+type retainedFn struct {
+	f func() uint64
+	h uint64
+}
+
+func retainCheck(w *mon.W, key, what string, fs ...func() uint64) bool {
+	cur, _ := w.State["retain/"+key].([]retainedFn)
+	for _, r := range cur {
+		if r.f() != r.h {
+			w.Fail(key+"/earlier-result-changed-by-later-call", mon.D{"what": "a slice returned by an earlier " + what + " call changed its content after a later library call"})
+			w.State["retain/"+key] = []retainedFn(nil)
+			return false
+		}
+	}
+	for _, f := range fs {
+		if len(cur) >= 8 {
+			cur = cur[1:]
+		}
+		cur = append(cur, retainedFn{f, f()})
+	}
+	w.State["retain/"+key] = cur
+	return true
 }
